@@ -18,7 +18,8 @@ EXPLANATION = (
     "-> write on the task's own file with the matching settings object, and every output file name depends "
     "on the task's own fname only; (R3) the pool maps the worker over zip(file names, repeat(preprocessing "
     "settings), repeat(processing settings), repeat(options)) in the worker's parameter order, each settings "
-    "object loaded from its own option. Not decided: multiprocessing itself, file-system collisions of equal "
+    "object loaded from its own option; the file_names argument is declared so that every name reaches the worker as "
+    "typed (no path rewriting, nargs=-1). Not decided: multiprocessing itself, file-system collisions of equal "
     "stems.")
 
 RULES = {
